@@ -110,17 +110,26 @@ fn item(ctx: &Ctx, i: usize, rep: &mut Report) {
     let width = lc.width();
     let eps = lc.epsilon();
     let kind = [Kind::FewKeys, Kind::Uniform, Kind::Zipf, Kind::RoundRobin, Kind::AdversarialAtThreshold, Kind::AdversarialAboveThreshold, Kind::Bursts, Kind::KnownAtWindowEnd][(i / 3) % 8];
-    let long = r.chance(0.12);
-    let n = if long {
+    let long0 = r.chance(0.12);
+    let many_windows = width <= 4 && r.chance(0.25);
+    let long = long0;
+    let n = if many_windows {
+        // more than 2^16 windows
+        70_000 * width + r.below(ctx.tier.pick(60_000, 600_000)) as usize
+    } else if long {
         5000 + r.below(ctx.tier.pick(100_000, 1_000_000)) as usize
     } else {
         1 + r.below(if width >= 100 { 5000 } else { 1500 }) as usize
     };
     let n = if ctx.is_dbg() { n.min(20_000) } else { n };
+    let long = long0 || n > 5000;
     let label = format!("lossy(width={},eps={},{:?},n={})", width, eps, kind, n);
     rep.config(format!("width={},eps={},{:?}", width, eps, kind));
     let stream = gen_stream(kind, n, width, &mut r);
     let snap0 = pdatastructs::verif::snapshot();
+    // clear() somewhere in the middle (mostly NOT on a window boundary), clone-and-continue
+    let clear_at: Option<usize> = if r.chance(0.3) && n > 3 { Some(1 + r.below(n as u64 - 2) as usize) } else { None };
+    let clone_at: Option<usize> = if r.chance(0.3) { Some(r.below(n as u64) as usize) } else { None };
     let mut truth: HashMap<u64, usize> = HashMap::new();
     let mut random_prefixes: HashSet<usize> = HashSet::new();
     if long {
@@ -145,9 +154,21 @@ fn item(ctx: &Ctx, i: usize, rep: &mut Report) {
         if lc.n() != 0 || lc.query(0.0).count() != 0 {
             return Some(("C09/fresh-state".into(), "fresh counter not empty".into()));
         }
+        let mut offset = 0usize; // adds before the last clear()
         for (idx, x) in stream.iter().enumerate() {
-            let cnt = idx + 1;
-            let at_prefix = !long || random_prefixes.contains(&cnt) || cnt == n;
+            if clear_at == Some(idx) {
+                lc.clear();
+                truth.clear();
+                offset = idx;
+                if lc.n() != 0 || lc.query(0.0).count() != 0 {
+                    return Some(("C09/state-after-clear".into(), format!("after clear(): n() = {}, {} tracked elements", lc.n(), lc.query(0.0).count())));
+                }
+            }
+            if clone_at == Some(idx) {
+                lc = lc.clone();
+            }
+            let cnt = idx + 1 - offset;
+            let at_prefix = !long || random_prefixes.contains(&(idx + 1)) || idx + 1 == n;
             // add's return value vs the tracked set observed just before the call
             let tracked_before: Option<bool> = if !long || at_prefix { Some(lc.query(0.0).any(|k| k == *x)) } else { None };
             let was_new = lc.add(*x);
